@@ -432,10 +432,92 @@ func (r *ltRec) crashStep(s *Step) error {
 	return fmt.Errorf("harness: not a crash step: %s", s.A)
 }
 
+// idOfHash / parentID: the block tree of the world by block id.
+func (r *ltRec) idOfHash(h wire.Hash) int {
+	for id, b := range r.w.Blk {
+		if *b.Hash() == h {
+			return id
+		}
+	}
+	return -1
+}
+
+func (r *ltRec) parentID(id int) int {
+	b, ok := r.w.Blk[id]
+	if !ok || id == 0 {
+		return -1
+	}
+	return r.idOfHash(b.MsgBlock().Header.Previous)
+}
+
+// reorgTo moves the node's best chain to leaf, one disconnect / connect of the chain database at a time, each
+// recorded as a ReorgStep line: the follower and the worker read the chain database without the chain lock, so what
+// they see in the middle of a reorganisation must be a state of the specification too (Chain.tla ReorgStep).
+func (r *ltRec) reorgTo(leaf int) error {
+	onPath := map[int]bool{}
+	var path []int
+	for id := leaf; id > 0; id = r.parentID(id) {
+		onPath[id] = true
+		path = append([]int{id}, path...)
+	}
+	cur := r.idOfHash(*r.w.E.Tip().Hash())
+	for cur > 0 && !onPath[cur] {
+		det, done, b := true, false, cur
+		if err := r.w.Do(&Step{A: "ReorgStep", Det: true, B: cur}); err != nil {
+			return err
+		}
+		r.add(ltEvent{Ev: "ReorgStep", Det: &det, Done: &done, B: &b})
+		cur = r.parentID(cur)
+	}
+	start := 0
+	for i, id := range path {
+		if id == cur {
+			start = i + 1
+		}
+	}
+	for _, id := range path[start:] {
+		det, done, b := false, id == leaf, id
+		if err := r.w.Do(&Step{A: "ReorgStep", Det: false, B: id, Done: done}); err != nil {
+			return err
+		}
+		r.add(ltEvent{Ev: "ReorgStep", Det: &det, Done: &done, B: &b})
+	}
+	return nil
+}
+
 // chain performs a chain action of the harness thread and records it, atomically with respect to the log.
 func (r *ltRec) chain(s *Step) error {
 	r.mu.Lock()
 	defer r.mu.Unlock()
+	switch s.A {
+	case "Fork":
+		// the competing branch as side blocks, then the reorganisation at the grain of the chain database
+		fs := *s
+		fs.A = "ForkSlow"
+		if err := r.w.Do(&fs); err != nil {
+			return err
+		}
+		b, p := s.B, s.P
+		e := ltEvent{Ev: "ForkSlow", B: &b, P: &p, Txs: s.Txs}
+		if e.Txs == nil {
+			e.Txs = [][]string{}
+		}
+		for i := range e.Txs {
+			if e.Txs[i] == nil {
+				e.Txs[i] = []string{}
+			}
+		}
+		r.add(e)
+		n := len(s.Txs)
+		if n == 0 {
+			n = 1
+		}
+		return r.reorgTo(s.B + n - 1)
+	case "SwitchTo":
+		b := s.B
+		r.add(ltEvent{Ev: "ReorgBegin", B: &b})
+		return r.reorgTo(s.B)
+	}
 	if err := r.w.Do(s); err != nil {
 		return err
 	}
@@ -546,7 +628,7 @@ func (r *ltRec) lines() []json.RawMessage {
 			m["role"], m["call"], m["site"] = e.Role, e.Op, e.Err
 		case "Extend", "Fork", "ForkSlow":
 			m["b"], m["p"], m["txs"] = *e.B, *e.P, e.Txs
-		case "SwitchTo":
+		case "SwitchTo", "ReorgBegin":
 			m["b"] = *e.B
 		case "ReorgStep":
 			m["det"], m["done"] = *e.Det, *e.Done
